@@ -118,6 +118,7 @@ def run(tier):
     out = common.parallel(do, reps, nthreads=8)
     lines = []
     plines = []
+    ilines = []
     n2 = 0
     nperm = 0
     descs = collections.Counter()
@@ -141,6 +142,7 @@ def run(tier):
             # the level-1 verdict belongs to C02; nothing to compare against
             continue
         refm = (list(ref.get("m") or []) + ["?"] * crashrun.NKEYS)[:crashrun.NKEYS]
+        ilines += crashrun.image_lines(len(index) - 1, pts, res)
         for q, r in zip(pts, res):
             m = (list(r.get("m") or []) + ["?"] * crashrun.NKEYS)[:crashrun.NKEYS]
             lines.append({"t": "cp", "idx": q.idx, "desc": q.desc, "ok": bool(r.get("ok")), "err": (r.get("err") or "")[:300], "m": m,
@@ -171,6 +173,9 @@ def run(tier):
         o.report("proto/%s" % b["clause"], "recovery of the level-1 image (session %s after '%s', class %s) takes a step the disk protocol does not enable: %s" % (
             sname, desc1, cls, b.get("ev", "")[:400]), {"steps": dict(sessions).get(sname), "idx": idx1})
     o.extra["recovery_protocol_steps_conforming"] = pnok
+    # content level: RecMap / OpenFails of SimpleDBDisk.tla on every decoded level-2 image = what the real (second) recovery made of it
+    isess = [(index[i][0], dict(sessions).get(index[i][0])) for i in range(len(index))]
+    nibad = c02.judge_images(o, ilines, isess, "sync", "C10")
     log("[C10] %d level-2 images (%d from other unlink orders): %s equal to the uninterrupted recovery, %d rejected" % (n2, nperm, nok, len(bad)))
     o.traces = len(reps)
     o.evaluations = n2
